@@ -458,7 +458,7 @@ func TestC13(t *testing.T) {
 	hx.Check[c13Case]{
 		Property: "C13", Part: "trees",
 		Rule:  "generated directory trees (depth <=4, empty/binary/CR/LF/CRLF contents, relative and absolute file and directory symlinks, chains, self loops, dangling links, links to ancestors and outside the tree) x recorded paths ('.', absolute root, subsets, odd spellings, missing) x algorithm lists (sha256/384/512 subsets, empty, unknown) x normalisation x follow-directory-symlinks x exclude patterns x strip prefixes (incl. colliding); modes: RecordArtifacts, InTotoRun, record start/stop (emit scripts changing the tree between the snapshots), InTotoMatchProducts against perturbed links; non-trivial = tree with a symlink, a CR byte, an exclude or a strip prefix; distinct by case JSON",
-		Cases: hx.Pick(600, 20000),
+		Cases: hx.Pick(600, 100000),
 		Gen:   c13Gen, Run: c13Run,
 	}.Execute(t)
 }
